@@ -25,7 +25,12 @@ import (
 	"time"
 )
 
-const verifDir = "/verif"
+var verifDir = func() string {
+	if d := os.Getenv("VERIF_DIR"); d != "" {
+		return d
+	}
+	return "/verif"
+}()
 
 // ---------------------------------------------------------------------------------------------
 // shared data types (driver <-> worker)
